@@ -18,10 +18,12 @@ def make_grid(L):
     if L["kind"] == "uniform":
         return fm.UniformGrid(tuple(L["dims"]), data_location=loc, order=L["order"], axes_reversed=L["rev"],
                               axes_increase=tuple(L["inc"]))
-    if L["kind"] == "rect":
+    if L["kind"] in ("rect", "rectb"):
         axes = []
         for n, inc in zip(L["dims"], L["inc"]):
             pts = np.array([(k * (k + 1)) / 2.0 for k in range(n)])
+            if L["kind"] == "rectb" and n >= 3:
+                pts[1:-1] += 1.0
             axes.append(pts if inc else pts[::-1])
         return fm.RectilinearGrid(axes, data_location=loc, order=L["order"], axes_reversed=L["rev"])
     return fm.EsriGrid(ncols=L["dims"][0] - 1, nrows=L["dims"][1] - 1, order=L["order"])
